@@ -182,6 +182,10 @@ def run(ctx: Context) -> None:
         if resp:
             kw = {k.arg: k.value for k in resp[0].keywords}
             ext = kw.get("extensions")
+            if isinstance(ext, ast.Name):
+                # the mapping built in a local first
+                ea = ctx.prov.expand(ext, f11, resp[0], depth=1)
+                ext = ea[0] if len(ea) == 1 else ext
             extd = {k.value: norm(v) for k, v in zip(ext.keys, ext.values)} if isinstance(ext, ast.Dict) else {}
             okr = norm(kw.get("status")) == "status" and norm(kw.get("headers")) == "headers" and extd.get("http_version") == "http_version" and extd.get("reason_phrase") == "reason_phrase"
         rep.ob("C02.R6", fkey(tree, f11, "h11-response-fields"), oku and okr, where(f11, resp[0] if resp else None), "status, headers, version and reason are passed to the Response unchanged")
